@@ -251,9 +251,15 @@ def _change_filter(ctx, func, comp, rule):
     names = [N.txt(e) for e in target.elts] if isinstance(
         target, ast.Tuple) and len(target.elts) == 5 else \
         ['app', 'before', 'exp_before', 'after', 'exp_after']
+    if isinstance(target, ast.Name):
+        # the tuple is kept whole and read by position
+        names = ['%s[%d]' % (target.id, i) for i in range(5)]
+
+    def pos(i):
+        return ast.parse(names[i], mode='eval').body
     want = {
-        N.cmp_atom(ast.Name(id=names[1]), '!=', ast.Name(id=names[3])),
-        N.cmp_atom(ast.Name(id=names[2]), '!=', ast.Name(id=names[4])),
+        N.cmp_atom(pos(1), '!=', pos(3)),
+        N.cmp_atom(pos(2), '!=', pos(4)),
     }
     ctx.ob(rule, func, comp, form[0] == 'or' and atoms == want,
            'the change filter keeps tuples whose server or expiry changed: '
@@ -292,6 +298,9 @@ def _changed_list(ctx, func, name, rule, what):
                     isinstance(sub.targets[0], ast.Tuple) and \
                     len(sub.targets[0].elts) == 5:
                 names = [N.txt(e) for e in sub.targets[0].elts]
+        if names is None:
+            # kept whole and read by position
+            names = ['%s[%d]' % (target.id, i) for i in range(5)]
     if names is None:
         return bad('the five positions of a placement tuple are not named')
     elt = part['elt']
@@ -318,9 +327,11 @@ def _changed_list(ctx, func, name, rule, what):
         shape = form[0]
         if form[0] == 'or':
             atoms = set(p[1] for p in form[1] if p[0] == 'atom')
+    def pos(i):
+        return ast.parse(names[i], mode='eval').body
     want = {
-        N.cmp_atom(ast.Name(id=names[1]), '!=', ast.Name(id=names[3])),
-        N.cmp_atom(ast.Name(id=names[2]), '!=', ast.Name(id=names[4])),
+        N.cmp_atom(pos(1), '!=', pos(3)),
+        N.cmp_atom(pos(2), '!=', pos(4)),
     }
     ctx.ob(rule, func, part['node'], shape == 'or' and atoms == want,
            'the change filter keeps tuples whose server or expiry changed: '
